@@ -43,7 +43,11 @@ fn reference_decision(variant: &str, h: u64, concurrent: bool, list: &[&str], ev
     let t0: i64 = if concurrent { h as i64 - 1 } else { h as i64 };
     for k in 2..=horizon {
         // queue content visible in tick k: arrived at time <= k-1
-        let q: Vec<&(u64, bool, &str)> = evs.iter().filter(|e| e.0 <= k - 1).collect();
+        let q_all: Vec<&(u64, bool, &str)> = evs.iter().filter(|e| e.0 <= k - 1).collect();
+        // the early triggers are about what other keys do WHILE the key is held: in arrival order,
+        // nothing after the key's own release counts
+        let cut = q_all.iter().position(|e| !e.1 && e.2 == "a").unwrap_or(q_all.len());
+        let q: Vec<&(u64, bool, &str)> = q_all[..cut].to_vec();
         let timeout_now = (t0 - (k as i64 - 1)).max(0);
         let mut skip_timeout = false;
         match variant {
@@ -83,7 +87,7 @@ fn reference_decision(variant: &str, h: u64, concurrent: bool, list: &[&str], ev
             }
             _ => {}
         }
-        if q.iter().any(|e| !e.1 && e.2 == "a") {
+        if q_all.iter().any(|e| !e.1 && e.2 == "a") {
             // release seen in the tick after its arrival: tap iff the hold time has not elapsed
             return Some((if timeout_now > 0 { Decision::Tap } else { Decision::Timeout }, k));
         }
@@ -223,7 +227,7 @@ impl Prop for C05 {
             let concurrent = r.chance(600);
             let mut case = Case { prop: "C05".into(), seed, ..Default::default() };
             case.cfg = format!(
-                "(defcfg concurrent-tap-hold {})\n(defsrc a d)\n(deflayer l0 ({v1} 0 {h1} x y) ({v2} 0 {h2} p q))\n",
+                "(defcfg concurrent-tap-hold {})\n(defsrc a d c)\n(deflayer l0 ({v1} 0 {h1} x y) ({v2} 0 {h2} p q) 2)\n",
                 if concurrent { "yes" } else { "no" }
             );
             let (a, d) = (oscode_of("a"), oscode_of("d"));
@@ -234,6 +238,15 @@ impl Prop for C05 {
                 ar += 1;
             }
             let mut evs = vec![(0u64, Op::Press(a)), (g1, Op::Press(d)), (g1 + hd, Op::Release(d)), (ar, Op::Release(a))];
+            // a plain key tapped after the second tap-hold key is up again (possibly while the first
+            // decision is still pending): it came too late to count as "another key pressed" for it
+            if r.chance(400) {
+                let cp = g1 + hd + r.range(1, 10);
+                if cp != ar && cp + 5 != ar {
+                    evs.push((cp, Op::Press(oscode_of("c"))));
+                    evs.push((cp + 5, Op::Release(oscode_of("c"))));
+                }
+            }
             evs.sort_by_key(|e| e.0);
             let mut ops = vec![];
             let mut t = 0;
@@ -662,7 +675,7 @@ impl Prop for C05 {
         vec![
             "tick conventions of the pinned tree (DESIGN.md D5): a press arriving at a is dequeued in tick a+1; non-concurrent hold/timeout fires in tick a+1+H, concurrent in tick a+H; a release is seen in the tick after its arrival and is a tap iff it arrived < H (H-1 when concurrent) after the press".into(),
             "exact-tick clause only for a tap-hold press into a drained engine (nothing arrived in the 25 ms before it)".into(),
-            "events that arrive within the same tick are evaluated together, early triggers first (a press seen in the same tick as the tap-hold key's own release still triggers the press variant's hold): convention of the pinned tree".into(),
+            "events that arrive within the same millisecond are evaluated together but in arrival order: another key's press (or press + release) counts for the early triggers only when it arrived before the tap-hold key's own release".into(),
         ]
     }
 }
